@@ -148,6 +148,9 @@ func (e *runEnv) doOp(t int, op plan.SOp, locals *[]*Object, checkDatum bool) op
 	case "exec":
 		rec.Out, rec.res = obj.ExecuteRaw(datum)
 		if rec.res != nil {
+			if op.Scribble != 0 && obj.Fl != nil {
+				scribble(rec.res, datum, op.Scribble)
+			}
 			rec.resCanon = Canon(rec.res, false)
 		}
 	case "expr":
@@ -188,6 +191,48 @@ func (e *runEnv) doOp(t int, op plan.SOp, locals *[]*Object, checkDatum bool) op
 		}
 	}
 	return rec
+}
+
+// scribble edits the container an Execute call returned, the way a caller may
+// who owns it: a map gets one more entry, a slice gets its first element zeroed
+// and one appended. Nothing reachable through the elements is touched (elements
+// may legitimately be shared with the datum), and a result that IS the datum
+// (the nil filter hands its input back) is left alone.
+func scribble(res, datum interface{}, seed uint64) {
+	rv, dv := reflect.ValueOf(res), reflect.ValueOf(datum)
+	switch rv.Kind() {
+	case reflect.Map:
+		if rv.IsNil() || (dv.Kind() == reflect.Map && dv.Pointer() == rv.Pointer()) {
+			return
+		}
+		var key reflect.Value
+		switch rv.Type().Key().Kind() {
+		case reflect.String:
+			key = reflect.ValueOf(fmt.Sprintf("verif-scribble-%d", seed%7)).Convert(rv.Type().Key())
+		case reflect.Int, reflect.Int64, reflect.Int32:
+			key = reflect.ValueOf(int64(900000 + seed%7)).Convert(rv.Type().Key())
+		case reflect.Interface:
+			key = reflect.ValueOf(fmt.Sprintf("verif-scribble-%d", seed%7))
+		default:
+			return
+		}
+		rv.SetMapIndex(key, reflect.Zero(rv.Type().Elem()))
+	case reflect.Slice:
+		if rv.IsNil() || rv.Cap() == 0 || (dv.Kind() == reflect.Slice && dv.Cap() > 0 && dv.Pointer() == rv.Pointer()) {
+			return
+		}
+		if dv.Kind() == reflect.Ptr && !dv.IsNil() && dv.Elem().Kind() == reflect.Array && dv.Pointer() == rv.Pointer() {
+			return
+		}
+		if rv.Len() > 0 && rv.Index(0).CanSet() {
+			rv.Index(0).Set(reflect.Zero(rv.Type().Elem()))
+		}
+		if rv.Cap() > rv.Len() {
+			// write into the spare capacity, as an append by the caller would
+			ext := rv.Slice(0, rv.Len()+1)
+			ext.Index(rv.Len()).Set(reflect.Zero(rv.Type().Elem()))
+		}
+	}
 }
 
 // freshOp executes one operation the way the stateless reference does: a
@@ -840,6 +885,9 @@ func GenSchedPlan(seed uint64, idx int, prop string) *plan.SchedPlan {
 				}
 				if spec.Opts.Hook != "" && r.Chance(0.35) {
 					op.FailAt = r.Range(1, 8)
+				}
+				if op.Kind == "exec" && (h>>24)%3 == 0 && r.Chance(0.5) {
+					op.Scribble = 1 + r.Uint64()%1000
 				}
 				if r.Chance(0.04) {
 					// the clock jumps while the call is running
